@@ -175,6 +175,7 @@ class World {
 };
 
 extern World *g_world;
+extern Node *g_handler_node;  // node of the running task iff it is a listener with a handler in progress
 void set_log_file(FILE *f);
 
 }  // namespace net
